@@ -155,6 +155,61 @@ def derefType (g : Field → Res Bool) (d : DeriveInput) : DerefType :=
   | .enum => .enum (d.variants.map (derefVariant g))
   | _ => .struct (derefVariant g (d.variants.headD {}))
 
+/-! ### Debug -/
+
+def dbgField (num : String → Nat) (fa : Field × DebugFieldAttr) : DbgField :=
+  { name := identOf (fname fa.1), ignore := fa.2.ignore, method := fa.2.method.map num, rename := fa.2.name.map identOf }
+
+/-- The flags of the type-level Debug builder on a struct (`named_field` defaults by shape). -/
+def dbgStructFlags (v : Variant) : DebugTypeFlags :=
+  { flag := true, unsafe_ := false, name := true, namedField := true, bound := true,
+    nameDefault := .default, namedFieldDefault := !(v.shape == .tuple) }
+
+def dbgFieldScan (c : Ctx) (namedField : Bool) (fs : List Field) : Res (List (Field × DebugFieldAttr)) :=
+  mapRes (fun f => do
+      let a ← fromAttrs c.F c.traits (· == .debug) (debugFieldFromMeta { name := namedField, ignore := true, method := true }) {} f.attrs
+      pure (f, a)) fs
+
+def dbgStructType (num : String → Nat) (d : DeriveInput) (v : Variant) (ta : DebugTypeAttr) (fas : List (Field × DebugFieldAttr)) : DbgType :=
+  .struct { name := identOf d.name, shape := v.shape, fields := fas.map (dbgField num), namedField := some ta.namedField } ta.name
+
+/-- The flags of the type-level Debug builder on an enum and of the variant-level builder. -/
+def dbgEnumFlags : DebugTypeFlags :=
+  { flag := true, unsafe_ := false, name := true, namedField := false, bound := true, nameDefault := .disable, namedFieldDefault := false }
+
+def dbgVariantFlags (v : Variant) : DebugTypeFlags :=
+  { flag := false, unsafe_ := false, name := true, namedField := true, bound := false,
+    nameDefault := .default, namedFieldDefault := v.shape == .named }
+
+def dbgVariantAttr (c : Ctx) (v : Variant) : Res DebugTypeAttr :=
+  fromAttrs c.F c.traits (· == .debug) (debugTypeFromMeta (dbgVariantFlags v)) { name := .default, namedField := v.shape == .named } v.attrs
+
+def dbgVariant (num : String → Nat) (p : Variant × DebugTypeAttr × List (Field × DebugFieldAttr)) : DbgVariant :=
+  { name := identOf p.1.name, shape := p.1.shape, fields := p.2.2.map (dbgField num), vname := p.2.1.name, namedField := some p.2.1.namedField }
+
+def dbgEnumType (num : String → Nat) (d : DeriveInput) (ta : DebugTypeAttr)
+    (vs : List (Variant × DebugTypeAttr × List (Field × DebugFieldAttr))) : DbgType :=
+  .enum (identOf d.name) (vs.map (dbgVariant num)) ta.name
+
+/-- The Debug configuration of a struct or enum, computed by the same steps as `debugHandler` (type-level attribute, then
+    per variant its attribute, then per field under the `name` switch the `named_field` in force dictates). `Props/E2E.lean`
+    (`dbgScan_of_handler`) shows that it succeeds, with the configuration of the end-to-end theorems, whenever the handler accepts. -/
+def dbgScan (c : Ctx) (m : TraitMeta) (num : String → Nat) : Res DbgType :=
+  match c.d.kind with
+  | .struct => do
+    let v := c.d.variants.headD {}
+    let ta ← debugTypeFromMeta (dbgStructFlags v) m
+    let fas ← dbgFieldScan c ta.namedField v.fields
+    pure (dbgStructType num c.d v ta fas)
+  | .enum => do
+    let ta ← debugTypeFromMeta dbgEnumFlags m
+    let vs ← mapRes (fun v => do
+        let va ← dbgVariantAttr c v
+        let fas ← if v.shape == .unit then pure [] else dbgFieldScan c va.namedField v.fields
+        pure (v, va, fas)) c.d.variants
+    pure (dbgEnumType num c.d ta vs)
+  | .union => .diag .notSupportUnion
+
 /-! ### what Rust guarantees about the definition itself -/
 
 /-- Field names of a struct-like variant are pairwise distinct; unit variants have no fields. -/
